@@ -35,7 +35,7 @@ def gen(tier, rng, shard, nshards):
                "seed": S.seed(rng), "start": S.pick(rng, ["generic", "generic", "eigvec", "few-eigvecs", "default", "batched", "batched-mixed"]),
                "max_iters": S.pick(rng, ["1", "2", "n//2", "n-1", "n", "n+5", "default"]), "tol": float(S.pick(rng, [1e-12, 1e-12, 1e-8, 1e-5, 1e-3])),
                "fn": S.pick(rng, ["lanczos", "lanczos", "lanczos", "lanczos_eigs", "Lanczos()"]),
-               "scale": float(S.pick(rng, [1.0, 1.0, 1e6, 1e-6])), "real_start": bool(rng.random() < 0.3)}
+               "scale": float(S.pick(rng, [1.0, 1.0, 1e6, 1e-6])), "real_start": bool(rng.random() < 0.3), "wide_start": bool(rng.random() < 0.25)}
         if rng.random() < 0.12:
             # start vectors whose Krylov space is exhausted *exactly* (residual identically zero, not merely ~1e-16):
             # kernel vector of an integer graph Laplacian, the zero operator, a coordinate eigenvector of a diagonal matrix
@@ -93,6 +93,8 @@ def build(case):
         v = v.astype(P.DT[dt])
         if cplx and case.get("real_start") and st in ("generic", "batched"):
             v = np.ascontiguousarray(v.real)  # a real start vector for a complex Hermitian operator (narrower dtype than the operator)
+        if not cplx and case.get("wide_start") and st in ("generic", "batched"):
+            v = (v + 1j * rng.standard_normal(v.shape)).astype(np.complex128)  # a complex start vector for a real symmetric operator
     mi = {"1": 1, "2": 2, "n//2": max(1, n // 2), "n-1": max(1, n - 1), "n": n, "n+5": n + 5, "default": None}[case["max_iters"]]
     return M, v, lam, d, mi, Q
 
@@ -208,6 +210,8 @@ def run_case(ctx, case):
     preds = {"start": case["start"], "family": case["family"], "complex": np.iscomplexobj(M), "fn": case["fn"], "max_iters": case["max_iters"]}
     if v is not None and np.iscomplexobj(M) and not np.iscomplexobj(v):
         preds["start_narrower_than_operator"] = True
+    if v is not None and not np.iscomplexobj(M) and np.iscomplexobj(v):
+        preds["start_wider_than_operator"] = True
     kw = {"tol": case["tol"]}
     if mi is not None:
         kw["max_iters"] = mi
